@@ -145,6 +145,23 @@ def streams(seed, tier):
     out.append(Stream("after-near-miss-runs", "thr.repeat", "thr.repeat.check", near,
                       "one instruction (LIST.NEIGHBOR* on small lattices with radii between lattice distances; random scalar / vector / list instructions) "
                       "executed after runs of the SAME instruction on near-miss operands (one operand perturbed) in the same thread: the result must not depend on that history"))
+    # (1c) pending flags and half-finished protocols: a run that ENDS with NAME.QUOTE (or a send flag) pending must not
+    #      leak into the next run on another state, nor into the same program running on another thread
+    flag = []
+    X7 = [("X", Z(7)), ("Y", L(Z(1), Z(2)))]
+    progs = ["( NAME.QUOTE X X )", "( X NAME.QUOTE X X )", "( X )", "( NAME.QUOTE Y Y X )", "( X NAME.QUOTE )", "( NAME.QUOTE )", "( NAME.QUOTE 1 2 X X )",
+             "( Y NAME.QUOTE X 5 INTEGER.DEFINE X )"]
+    leftovers = [state(exec=parse_prog(t, modelled), bind=X7, cfg=cfg(30, 500)) for t in ("( NAME.QUOTE )", "( 1 NAME.QUOTE 2 )", "( X NAME.QUOTE )")] + \
+                [state(exec=[], quote=True, cfg=cfg(30, 500)), state(exec=[], send=True, cfg=cfg(30, 500))]
+    for k, t in enumerate(progs):
+        st0 = state(exec=parse_prog(t, modelled), bind=X7, cfg=cfg(30, 500))
+        for prof in (0, 1):
+            for th in (1, 8, 16):
+                flag.append(repeat_case(prof, st0, 3, 0, th, []))
+            flag.append(repeat_case(prof, st0, 1, 3, 2, [rng.choice(leftovers) for _ in range(3)]))
+    out.append(Stream("pending-flags", "thr.repeat", "thr.repeat.check", flag,
+                      "programs around NAME.QUOTE and bound names: three times in a row, on 1 / 8 / 16 threads at once, and after runs (other states) that END with a "
+                      "NAME.QUOTE or a send flag pending: the pending flag belongs to the PushState, nothing leaks between states or threads"))
     # (2) node ids under real concurrency
     idc = [[16, 10000, 0], [16, 100000, 0], [16, 10000, 1], [1, 1000, 0], [2, 100000, 1], [8, 20000, 1]]
     if tier != "quick":
